@@ -881,7 +881,7 @@ func simplifyLambda(expression b6.Expression, functions SymbolArgCounts, bound [
 	// global one that takes exactly the arguments it's given (otherwise the
 	// lambda and the function differ in the number of arguments they
 	// accept), the lambda's arguments are passed first, in order, and
-	// aren't otherwise used.
+	// aren't otherwise used, and the other arguments are plain values.
 	call, ok := lambda.Expression.AnyExpression.(b6.CallExpression)
 	if !ok || len(lambda.Args) == 0 || len(call.Args) < len(lambda.Args) {
 		return expression
@@ -907,6 +907,12 @@ func simplifyLambda(expression b6.Expression, functions SymbolArgCounts, bound [
 	remaining := call.Args[len(lambda.Args):len(call.Args)]
 	for _, arg := range remaining {
 		if usesAnyOf(arg, lambda.Args) {
+			return expression
+		}
+		// The lambda evaluates its other arguments each time it's called,
+		// a partial call just once, when it's made, even if it's never
+		// called. That can't be told apart for values, but a call could fail.
+		if _, ok := arg.AnyExpression.(b6.CallExpression); ok {
 			return expression
 		}
 	}
